@@ -67,11 +67,20 @@ def recheck(d, meta, patch):
             return {'error': 'patch(1) failed: ' + (r.stdout + r.stderr)[-200:]}
         checks = meta.get('caught_by') or sorted(meta.get('checks', {}))
         res = {}
+        # does the change still break anything on this HEAD? (a later fix may have made it harmless)
+        demo = os.path.join(d, 'demo.py')
+        demo_exit = None
+        if os.path.exists(demo):
+            env = dict(os.environ, PYTHONPATH=COPY, PYTHONDONTWRITEBYTECODE='1')
+            try:
+                demo_exit = subprocess.run(['/venv/bin/python', demo], cwd='/tmp', env=env, capture_output=True, timeout=900).returncode
+            except subprocess.TimeoutExpired:
+                demo_exit = 'timeout'
         for c in checks:
             t = time.time()
             r = sh('cd %s && VERIF_REPO=%s /venv/bin/python -m vmon check %s --tier quick' % (V, COPY, c))
             res[c] = {'exit': r.returncode, 'wall_s': round(time.time() - t, 1)}
-        return {'head': head(), 'patch': os.path.basename(patch), 'checks': res,
+        return {'head': head(), 'patch': os.path.basename(patch), 'checks': res, 'demo_exit_with_change': demo_exit,
                 'caught_by': sorted(c for c, v in res.items() if v['exit'] == 1)}
     finally:
         shutil.rmtree(COPY, ignore_errors=True)
@@ -99,7 +108,10 @@ def main(argv):
                 meta['recheck'] = recheck(d, meta, patch)
                 summary['rechecked'] += 1
                 if not meta['recheck'].get('caught_by'):
-                    summary['lost'].append(sid)
+                    if meta['recheck'].get('demo_exit_with_change') == 0:
+                        summary.setdefault('neutralised_by_later_fix', []).append(sid)
+                    else:
+                        summary['lost'].append(sid)
                 print(sid, how, 'recheck caught by:', meta['recheck'].get('caught_by'), flush=True)
         json.dump(meta, open(mp, 'w'), indent=1)
     print(json.dumps(summary))
